@@ -37,7 +37,9 @@ RULE = (
     'class) triple discovered at run time, each with 1-4 argument variants from a fixture registry keyed by the '
     'replacement (seeded tables, formulas, estimated model). quick: first two variants per pair of the expression '
     'hierarchy, a seeded third of the receivers per renamed keyword of that hierarchy; thorough: all variants, all '
-    'receivers, two independent seeds of the fixtures. A case is non-trivial '
+    'receivers, two independent seeds of the fixtures. Every renamed keyword is also driven through every function of '
+    'the package that forwards **kwargs to its wrapper (ast scan), and old + current spelling are given together to the '
+    'wrapper in both orders (equal values judged, contradicting values counted only). A case is non-trivial '
     'when both the old and the new spelling were executed and compared; distinct = hash of (alias or keyword, receiver '
     'class, variant label, seed-dependent fixture id)'
 )
@@ -78,9 +80,15 @@ def cases(seed, tier):
                         continue
                     out.append({'t': 'param', 'module': p['module'], 'owner': p['owner'], 'name': p['name'], 'kw': old_kw, 'recv': r,
                                 'seed': seed, 'rep': rep, 'tier': tier})
+        # every renamed keyword also through every function of the package that forwards **kwargs to its wrapper
+        for f in ob.forwarders():
+            for old_kw in sorted(f['mapping']):
+                out.append({'t': 'fwd', 'module': f['module'], 'owner': f['owner'], 'name': f['name'], 'kw': old_kw, 'recv': f['owner'],
+                            'via_module': f['via_module'], 'via_owner': f['via_owner'], 'via_name': f['via_name'], 'seed': seed, 'rep': rep,
+                            'tier': tier})
     # heavy cases (estimation) first so that the shards finish together
     heavy = ('BIOGEME', 'bioResults', 'results', 'multiobjectives')
-    out.sort(key=lambda c: 0 if _short(c['owner'], c['module']) in heavy else 1)
+    out.sort(key=lambda c: 0 if (_short(c['owner'], c['module']) in heavy or c['t'] == 'fwd') else 1)
     return out
 
 
@@ -92,6 +100,7 @@ def warmup():
         from ..oracle import c20_observe as ob
 
         ob.discover()
+        ob.forwarders()
         import biogeme.biogeme  # noqa
         import biogeme.results  # noqa
         import biogeme.models  # noqa
@@ -187,7 +196,7 @@ def _selftest_monitors():
 # ---------------------------------------------------------------------------
 
 def _world_seed(case, salt=''):
-    h = hashlib.sha1(f"{case['seed']}|{case['rep']}|{case['module']}|{case['owner']}|{case['name']}|{case.get('recv')}|{case.get('kw')}|{salt}".encode()).hexdigest()
+    h = hashlib.sha1(f"{case['seed']}|{case['rep']}|{case['module']}|{case['owner']}|{case['name']}|{case.get('recv')}|{case.get('kw')}|{case.get('via_name')}|{salt}".encode()).hexdigest()
     return int(h[:8], 16)
 
 
@@ -546,18 +555,30 @@ def _run_param(case):
     mapping = ob.dp_mapping(wrapper) if wrapper is not None else None
     trip = f'{owner or case["module"]}.{func}:{old_kw}@{recvq or "-"}'
     short = f'{_short(owner, case["module"])}.{func}:{old_kw}'
+    fwd = case['t'] == 'fwd'
+    via = None
+    if fwd:
+        via = f'{case["via_owner"] or case["via_module"]}.{case["via_name"]}'
+        trip = f'{owner or case["module"]}.{func}:{old_kw}@via:{via}'
+        short = f'{short}/via-{_short(case["via_owner"], case["via_module"])}.{case["via_name"]}'
     if mapping is None or old_kw not in mapping:
         rec.inconc(f'renamed keyword {trip} vanished between discovery and execution')
         return rec.out()
-    rec.c('triples_scheduled')
+    rec.c('forwarded_keywords_scheduled' if fwd else 'triples_scheduled')
     W = fx.World(_world_seed(case))
     try:
-        if _is_expr_family(owner) and inspect.isabstract(recv_cls):
+        if fwd:
+            variants = fx.forward_variants(via, f'{owner or case["module"]}.{func}', old_kw, W)
+            if not variants:
+                rec.inconc(f'no fixture for the forwarding caller {via} (forwards **kwargs to {owner or case["module"]}.{func})')
+                return rec.out()
+        elif _is_expr_family(owner) and inspect.isabstract(recv_cls):
             rec.c('receiver_abstract_class')
             rec.c('triple_skipped::' + trip)
             return rec.out()
         try:
-            variants = fx.param_variants(owner, case['module'], func, old_kw, recv_cls.__name__ if recv_cls else None, W)
+            if not fwd:
+                variants = fx.param_variants(owner, case['module'], func, old_kw, recv_cls.__name__ if recv_cls else None, W)
         except KeyError:
             import biogeme.exceptions as be
 
@@ -581,7 +602,9 @@ def _run_param(case):
     code = ob.innermost_code(wrapper)
     compared = 0
     for i, v in enumerate(variants):
-        if v.get('ctor') is not None:
+        if fwd:
+            fn = getattr(v['recv'], case['via_name']) if v['recv'] is not None else getattr(importlib.import_module(case['via_module']), case['via_name'])
+        elif v.get('ctor') is not None:
             fn = v['ctor']
         elif v['recv'] is not None:
             fn = getattr(v['recv'], func)
@@ -601,7 +624,7 @@ def _run_param(case):
         kw_new = dict(v['kwargs'])
         if new_kw:
             kw_new[new_kw] = v['value']
-            rec.c('keyword_renamed')
+            rec.c('forwarded_keyword_renamed' if fwd else 'keyword_renamed')
             # the keyword the warning recommends must be one the function has
             try:
                 ps = inspect.signature(inspect.unwrap(wrapper)).parameters
@@ -615,7 +638,7 @@ def _run_param(case):
             except (TypeError, ValueError):
                 pass
         else:
-            rec.c('keyword_declared_ignored')
+            rec.c('forwarded_keyword_declared_ignored' if fwd else 'keyword_declared_ignored')
         n = _obs(rec, dict(base, kwargs=kw_new), f'p{i}_new', [code])
         if 'returned' not in n:
             rec.inconc(f'{trip}: observation with the new keyword failed: {str(n)[:200]}')
@@ -640,9 +663,80 @@ def _run_param(case):
                 rec.violation(f'C20/keyword-{k}/{short}', msg, dict(wit, kinds=kinds))
         else:
             rec.c('variants_identical')
+        # -- both spellings in one call to the wrapper itself (receiver-independent: once per keyword)
+        if not fwd and new_kw and i == 0 and (recvq in (None, owner) or (recvq or '').endswith('.Plus')):
+            _both_spellings(rec, base, v, old_kw, new_kw, n, code, trip, short, wit)
     if compared:
-        rec.c('triple_compared::' + trip)
+        rec.c(('forward_compared::' if fwd else 'triple_compared::') + trip)
     return rec.out()
+
+
+def _alt_value(v):
+    """another admissible value of the same kind, or None"""
+    if isinstance(v, bool):
+        return not v
+    if isinstance(v, int):
+        return v + 3
+    if isinstance(v, str):
+        return v + ' (other)'
+    if isinstance(v, list) and len(v) > 1:
+        return v[:-1]
+    return None
+
+
+def _both_spellings(rec, base, v, old_kw, new_kw, n_new, code, trip, short, wit):
+    """Old and current spelling of one keyword in the same call, both orders.
+
+    Equal values: whatever precedence the wrapper applies, the call must behave like ``f(new=v)`` (judged: the old
+    spelling adds nothing but the warning). Different values: the statement gives no rule which of two contradicting
+    spellings a *direct* call should honour (the old-spelling value must survive a current spelling that a forwarding
+    caller filled in by default -- that is judged on the package's real forwarding callers): the outcome is classified
+    and counted, not judged."""
+    from ..oracle import c20_observe as ob
+
+    val = v['value']
+    for tag, order in (('old-first', (old_kw, new_kw)), ('new-first', (new_kw, old_kw))):
+        kw = dict(v['kwargs'])
+        for k in order:
+            kw[k] = val
+        b = _obs(rec, dict(base, kwargs=kw), f'b_{tag}_eq', [code])
+        if 'returned' not in b:
+            continue
+        rec.ev()
+        rec.c('both_spellings_equal_values_observed')
+        d = [(k, x) for k, x in ob.compare(b, n_new) if k not in ('log-records-differ', 'printed-output-differs')]
+        if d:
+            rec.violation(f'C20/keyword-both-spellings-with-equal-values-differ-from-current-spelling/{short}',
+                          f'{trip}: f({order[0]}=v, {order[1]}=v) differs from f({new_kw}=v): ' + ' | '.join(f'{k}: {x}' for k, x in d)[:600],
+                          dict(wit, order=tag, both=_trim(b)))
+        else:
+            rec.c('both_spellings_equal_values_like_current_spelling')
+    alt = _alt_value(val)
+    if alt is None:
+        rec.c('both_spellings_no_alternative_value_for_this_keyword')
+        return
+    kw = dict(v['kwargs'])
+    kw[new_kw] = alt
+    n_alt = _obs(rec, dict(base, kwargs=kw), 'b_new_alt', [code])
+    if 'returned' not in n_alt:
+        return
+    if not ob.compare(n_alt, n_new):
+        rec.c('both_spellings_alternative_value_indistinguishable')
+        return
+    for tag, order in (('old-first', ((old_kw, val), (new_kw, alt))), ('new-first', ((new_kw, alt), (old_kw, val)))):
+        kw = dict(v['kwargs'])
+        for k, x in order:
+            kw[k] = x
+        b = _obs(rec, dict(base, kwargs=kw), f'b_{tag}_ne', [code])
+        if 'returned' not in b:
+            continue
+        rec.ev()
+        like_old = not [k for k, _ in ob.compare(b, n_new) if k in ('result-differs', 'state-after-call-differs', 'old-raises-replacement-returns',
+                                                                  'old-returns-replacement-raises', 'exception-type-differs', 'files-differ')]
+        like_new = not [k for k, _ in ob.compare(b, n_alt) if k in ('result-differs', 'state-after-call-differs', 'old-raises-replacement-returns',
+                                                                  'old-returns-replacement-raises', 'exception-type-differs', 'files-differ')]
+        who = 'old-spelling-value-used' if like_old and not like_new else ('current-spelling-value-used' if like_new and not like_old else 'neither-or-both')
+        rec.c(f'both_spellings_different_values_{tag}_{who}_not_judged')
 
 
 # ---------------------------------------------------------------------------
@@ -688,6 +782,16 @@ def finalize(cov, tier):
     lonely = sorted(k for k in {t.split('@')[0] for t in trips} if per_kw.get(k, 0) == 0)
     if lonely:
         out.append(f'renamed keywords never compared on any receiver: {lonely}')
+    # forwarding callers
+    fw = ob.forwarders()
+    ftr = {f'{f["owner"] or f["module"]}.{f["name"]}:{k}@via:{f["via_owner"] or f["via_module"]}.{f["via_name"]}' for f in fw for k in f['mapping']}
+    fdone = {k.split('::', 1)[1] for k in cov if k.startswith('forward_compared::')}
+    fmiss = sorted(ftr - fdone)
+    if fmiss:
+        out.append(f'{len(fmiss)} renamed keywords never compared through a forwarding caller: {fmiss[:8]}')
+    cov['forwarding_callers_found_in_sources'] = len(fw)
+    cov['forwarded_keywords'] = len(ftr)
+    cov['forwarded_keywords_compared'] = len(fdone & ftr)
     cov['alias_receiver_pairs'] = len(pairs)
     cov['alias_receiver_pairs_compared'] = len(done & pairs)
     cov['alias_receiver_pairs_skipped_not_instantiable'] = len(skipped & pairs)
